@@ -721,8 +721,9 @@ func (context *layoutContext) makePage(rootBox bo.BlockLevelBoxITF, pageType uti
 		outOfFlowBoxes   []Box
 		contextOutOfFlow = context.brokenOutOfFlow
 	)
-	context.brokenOutOfFlow = make(map[Box]brokenBox) // new map
-	for _, v := range contextOutOfFlow {
+	context.brokenOutOfFlow = newBrokenBoxes() // new map
+	for _, k := range contextOutOfFlow.keys {
+		v := contextOutOfFlow.values[k]
 		box, containingBlock := v.box, v.containingBlock
 		box.Box().PositionY = rootBox.Box().ContentBoxY()
 
@@ -742,7 +743,7 @@ func (context *layoutContext) makePage(rootBox bo.BlockLevelBoxITF, pageType uti
 		}
 		outOfFlowBoxes = append(outOfFlowBoxes, outOfFlowBox)
 		if outOfFlowResumeAt != nil {
-			context.brokenOutOfFlow[outOfFlowBox] = brokenBox{box, containingBlock, outOfFlowResumeAt}
+			context.brokenOutOfFlow.set(outOfFlowBox, brokenBox{box, containingBlock, outOfFlowResumeAt})
 		}
 	}
 
@@ -1024,9 +1025,7 @@ func (context *layoutContext) makeAllPages(rootBox bo.BlockLevelBoxITF, html *tr
 		if resumeAt == nil && len(reportedFootnotes) == 0 {
 			// Throw away obsolete pages and content
 			context.pageMaker = context.pageMaker[:i+1]
-			for k := range context.brokenOutOfFlow {
-				delete(context.brokenOutOfFlow, k)
-			}
+			context.brokenOutOfFlow.clear()
 			context.reportedFootnotes = context.reportedFootnotes[:0]
 			return out
 		}
